@@ -791,3 +791,188 @@ func sortedKeys(m map[string]*Node) []string {
 	sort.Strings(out)
 	return out
 }
+
+// ---- W+ : the wider class of C09 ---------------------------------------------------------------------
+
+// WPlusInfo says what was done to a bundle to take it out of W.
+type WPlusInfo struct {
+	Kinds        []string `json:"kinds"`
+	Unresolvable bool     `json:"unresolvable"` // a remote or anonymous $ref that Flatten must resolve does not resolve
+	LocalMissing bool     `json:"localMissing"` // a local '#/definitions/<missing>' (interpretation: not claimed)
+}
+
+func schemaPositions(doc *Node) [][]string {
+	var out [][]string
+	doc.Walk(nil, func(p []string, n *Node) {
+		if len(p) < 2 {
+			return
+		}
+		last := p[len(p)-1]
+		if last == "properties" || last == "definitions" || last == "parameters" || last == "responses" || last == "paths" || last == "headers" ||
+			last == "allOf" || last == "anyOf" || last == "oneOf" || last == "patternProperties" || last == "info" {
+			return
+		}
+		inSchema := false
+		for i, l := range p {
+			if l == "schema" || (l == "definitions" && i == 0 && len(p) > 1) {
+				inSchema = true
+			}
+		}
+		if !inSchema || n.At["__list"] != nil {
+			return
+		}
+		out = append(out, append([]string{}, p...))
+	})
+	return out
+}
+
+func opLevelHolders(doc *Node) [][]string {
+	var out [][]string
+	doc.Walk(nil, func(p []string, n *Node) {
+		if len(p) > 0 && p[0] == "paths" && n.Ref() != nil {
+			isSchema := false
+			for _, l := range p {
+				if l == "schema" {
+					isSchema = true
+				}
+			}
+			if isSchema {
+				out = append(out, append([]string{}, p...))
+			}
+		}
+	})
+	return out
+}
+
+// MutateWPlus applies 1..3 random mutations that take the bundle out of W (but keep it loadable).
+func (g *Gen) MutateWPlus(b *Bundle) WPlusInfo {
+	info := WPlusInfo{}
+	root := b.Docs["root"]
+	b.Feat.WPlus = true
+	n := 1 + g.r.Intn(3)
+	used := map[string]bool{}
+	for i := 0; i < n; i++ {
+		holders := [][]string{}
+		for _, h := range opLevelHolders(root) {
+			if !used[fmt.Sprint(h)] {
+				holders = append(holders, h)
+			}
+		}
+		if len(holders) > 0 {
+			// each mutation gets its own holder: a later one must not overwrite an earlier one
+			pick := holders[g.r.Intn(len(holders))]
+			used[fmt.Sprint(pick)] = true
+			holders = [][]string{pick}
+		}
+		switch k := g.r.Intn(8); k {
+		case 0, 1: // pointer to an arbitrary schema position (operations, nested inline schemas)
+			pos := schemaPositions(root)
+			if len(holders) == 0 || len(pos) == 0 {
+				continue
+			}
+			h := holders[g.r.Intn(len(holders))]
+			t := pos[g.r.Intn(len(pos))]
+			root.Get(h).At["$ref"] = append([]string{"root"}, t...)
+			info.Kinds = append(info.Kinds, "arbitrary-pointer")
+		case 2: // pointer nested in a pointer target: plant an anonymous pointer inside a root definition's sub-schema
+			pos := schemaPositions(root)
+			defsOnly := [][]string{}
+			for _, p := range pos {
+				if p[0] == "definitions" && len(p) > 2 {
+					defsOnly = append(defsOnly, p)
+				}
+			}
+			if len(defsOnly) < 2 {
+				continue
+			}
+			a, c := defsOnly[g.r.Intn(len(defsOnly))], defsOnly[g.r.Intn(len(defsOnly))]
+			if fmt.Sprint(a) == fmt.Sprint(c) || strings.HasPrefix(fmt.Sprint(c), strings.TrimSuffix(fmt.Sprint(a), "]")) {
+				continue
+			}
+			root.Set(a, refNode(append([]string{"root"}, c...)...))
+			if len(holders) > 0 {
+				root.Get(holders[g.r.Intn(len(holders))]).At["$ref"] = append([]string{"root"}, a[:len(a)-0]...)
+			}
+			info.Kinds = append(info.Kinds, "nested-pointer")
+		case 3: // auxiliary document refers back to the root
+			for _, id := range sortedKeys(b.Docs) {
+				if id == "root" {
+					continue
+				}
+				d := b.Docs[id].Ch["definitions"]
+				if d == nil || len(d.Ch) == 0 {
+					continue
+				}
+				names := sortedKeys(d.Ch)
+				dn := names[g.r.Intn(len(names))]
+				tgt := g.anyDef("root")
+				if d.Ch[dn].Ch["properties"] != nil {
+					d.Ch[dn].Ch["properties"].Ch[g.newName()] = refNode("root", "definitions", tgt)
+				} else {
+					d.Ch[dn] = refNode("root", "definitions", tgt)
+				}
+				info.Kinds = append(info.Kinds, "back-reference")
+				break
+			}
+		case 4: // dangling remote definition / missing file
+			if len(holders) == 0 {
+				continue
+			}
+			h := holders[g.r.Intn(len(holders))]
+			if len(b.Docs) > 1 && g.r.Intn(2) == 0 {
+				ids := sortedKeys(b.Docs)
+				id := ids[g.r.Intn(len(ids))]
+				if id == "root" {
+					id = ids[0]
+				}
+				if id != "root" {
+					root.Get(h).At["$ref"] = []string{id, "definitions", "doesNotExist"}
+					info.Unresolvable = true
+					info.Kinds = append(info.Kinds, "dangling-remote-definition")
+				}
+			} else {
+				b.Files["ghost"] = "api/ghost.json" // never written
+				root.Get(h).At["$ref"] = []string{"ghost", "definitions", "x"}
+				info.Unresolvable = true
+				info.Kinds = append(info.Kinds, "missing-file")
+			}
+		case 5: // dangling anonymous pointer
+			if len(holders) == 0 {
+				continue
+			}
+			h := holders[g.r.Intn(len(holders))]
+			root.Get(h).At["$ref"] = []string{"root", "definitions", g.anyDef("root"), "properties", "doesNotExist"}
+			info.Unresolvable = true
+			info.Kinds = append(info.Kinds, "dangling-anonymous-pointer")
+		case 6: // local reference to a missing definition (interpretation: not claimed)
+			if len(holders) == 0 {
+				continue
+			}
+			h := holders[g.r.Intn(len(holders))]
+			root.Get(h).At["$ref"] = []string{"root", "definitions", "doesNotExist"}
+			info.LocalMissing = true
+			info.Kinds = append(info.Kinds, "local-missing-definition")
+		case 7: // schemas recursive only through items / additionalProperties
+			nm := g.newName()
+			g.defs["root"] = append(g.defs["root"], nm)
+			var body *Node
+			if g.r.Intn(2) == 0 {
+				body = leaf("array")
+				inner := leaf("array")
+				inner.Ch["items"] = refNode("root", "definitions", nm)
+				body.Ch["items"] = inner
+			} else {
+				body = leaf("object")
+				inner := leaf("array")
+				inner.Ch["items"] = refNode("root", "definitions", nm)
+				body.Ch["additionalProperties"] = inner
+			}
+			root.Ch["definitions"].Ch[nm] = body
+			if len(holders) > 0 {
+				root.Get(holders[g.r.Intn(len(holders))]).At["$ref"] = []string{"root", "definitions", nm}
+			}
+			info.Kinds = append(info.Kinds, "container-recursion")
+		}
+	}
+	return info
+}
